@@ -18,6 +18,7 @@ mod c15;
 mod c16;
 mod c17;
 mod c18;
+mod c19;
 mod cli;
 mod evidence;
 mod impl_;
@@ -107,6 +108,7 @@ fn main() {
         "C16" => c16::run(&tier),
         "C17" => c17::run(&tier),
         "C18" => c18::run(&tier),
+        "C19" => c19::run(&tier),
         _ => {
             eprintln!("unknown check {}", id);
             2
